@@ -18,6 +18,7 @@ fn main() {
         "crash" => shpverif::cmd_crash::run(&a),
         "faults" => shpverif::cmd_faults::run(&a),
         "foreign" => shpverif::cmd_foreign::run(&a),
+        "types" => shpverif::cmd_types::run(&a),
         c => {
             eprintln!("unknown command {}", c);
             std::process::exit(2);
